@@ -34,7 +34,8 @@ LEVEL_ASSUMPTIONS = [
 REQUIRED = {"template[synthetic-unit-filled]": 10,
             "template[synthetic-thin]": 10, "decodes_judged": 500,
             "witness_layouts_judged": 400,
-            "hardness_evaluations": 10, "errors_of_template_zero": 5,
+            "hardness_evaluations": 10, "fresh_process_references": 4,
+            "hardness_sibling_histories": 2, "errors_of_template_zero": 5,
             "extreme_value_vectors": 100}
 
 class StopShard(Exception):
@@ -368,6 +369,27 @@ def one(ctx, tcase, k, x=None, tag=None):
     return sp, inst, x
 
 
+def fresh_process_hardness(inst, fes, runs):
+    import subprocess
+    import sys
+    code = ("import sys\n"
+            "from moptipyapps.binpacking2d.instance import Instance\n"
+            "from moptipyapps.binpacking2d.instgen.hardness import Hardness\n"
+            "i = Instance.from_compact_str(sys.argv[1])\n"
+            "print('HARDNESS', repr(Hardness(int(sys.argv[2]), "
+            "int(sys.argv[3])).evaluate(i)))\n")
+    try:
+        p = subprocess.run([sys.executable, "-c", code,
+                            inst.to_compact_str(), str(fes), str(runs)],
+                           capture_output=True, text=True, timeout=600)
+    except subprocess.TimeoutExpired:
+        return None
+    for ln in p.stdout.splitlines():
+        if ln.startswith("HARDNESS "):
+            return float(ln.split(" ", 1)[1])
+    return None
+
+
 def hardness(ctx, tcase):
     from moptipyapps.binpacking2d.instgen.errors_and_hardness import (
         ErrorsAndHardness,
@@ -382,6 +404,17 @@ def hardness(ctx, tcase):
     runs = int(rng.integers(1, 3))
     case = {"kind": "hardness", "template": tcase,
             "x": [float(v) for v in x], "fes": fes, "runs": runs}
+    # history: an objective configured differently has evaluated another
+    # instance of the same name (every instance generated from one template
+    # carries the template's suffixed name) before
+    if rng.integers(2):
+        other = one(ctx, tcase, int(rng.choice([0, 1, 2])))
+        if other is not None:
+            oruns = runs + int(rng.choice([1, 2]))
+            Hardness(int(rng.integers(2, 51)), oruns).evaluate(other[1])
+            ctx.count("hardness_sibling_histories")
+            case["sibling"] = {"x": [float(v) for v in other[2]],
+                               "runs": oruns}
     h = Hardness(fes, runs)
     STATE["case"] = None
     ctx.case()
@@ -397,6 +430,21 @@ def hardness(ctx, tcase):
         ctx.violation("hardness-not-repeatable",
                       f"same instance: {v1!r}, {v2!r}, fresh object {v3!r}",
                       case)
+    # the history-free reference: the same configuration as the first thing
+    # a fresh interpreter does
+    if STATE.get("fresh_refs", 0) < 3:
+        STATE["fresh_refs"] = STATE.get("fresh_refs", 0) + 1
+        vf = fresh_process_hardness(inst, fes, runs)
+        if vf is None:
+            ctx.count("fresh_process_reference_failed")
+        else:
+            ctx.count("fresh_process_references")
+            if vf != v1:
+                ctx.violation(
+                    "hardness-depends-on-process-history",
+                    f"Hardness({fes}, {runs}) = {v1!r} in this process, "
+                    f"{vf!r} as the first evaluation of a fresh process",
+                    case)
     eh = ErrorsAndHardness(sp, fes, runs)
     w1 = eh.evaluate([inst])
     w2 = eh.evaluate([inst])
